@@ -267,7 +267,10 @@ def coords_history(case, ctx):
         if case["normalize"]:
             with lentil_call("C12.history", f"zernike_remove (step {i})"):
                 zero = np.asarray(lentil.zernike_remove(opd, mask, modes, **kw), dtype=float)
-            if np.max(np.abs(zero[mask != 0])) > tol * np.sqrt(mask.size) * 4:
+            # (residual of a surface: its scale is what the composed surface reaches - far beyond the coefficients when
+            # the caller's coordinates run past rho = 1)
+            rscale = max(1.0, float(np.max(np.abs(opd))) / max(float(np.max(np.abs(c))), 1e-300))
+            if np.max(np.abs(zero[mask != 0])) > tol * np.sqrt(mask.size) * 4 * rscale:
                 raise Violation("C12.history.remove", f"step {i}: an OPD made only of modes {modes} is not removed")
 
 
